@@ -101,3 +101,26 @@ pub proof fn lemma_a64_prefix(ctx: Seq<ContextBinding>, k: int)
         assert((p + e)[p.len() + w] == x);
     }
 }
+
+/// the evacuation list of the AArch64 backend: at most 17 registers, each caller-saved (X0..X17) or the link
+/// register, pairwise distinct
+pub proof fn lemma_a64_saves_distinct(ctx: Seq<ContextBinding>, k: int)
+    requires 0 <= k <= ctx.len(), k <= 7,
+    ensures
+        (a64_prefix(ctx.len() as int) + expected_saves(ctx, k)).len() <= 17,
+        forall|j: int| 0 <= j < (a64_prefix(ctx.len() as int) + expected_saves(ctx, k)).len() ==> (#[trigger] (a64_prefix(ctx.len() as int) + expected_saves(ctx, k))[j] <= 17 || (a64_prefix(ctx.len() as int) + expected_saves(ctx, k))[j] == 29),
+        forall|j: int, l: int| 0 <= j < l < (a64_prefix(ctx.len() as int) + expected_saves(ctx, k)).len() ==> (a64_prefix(ctx.len() as int) + expected_saves(ctx, k))[j] != (a64_prefix(ctx.len() as int) + expected_saves(ctx, k))[l],
+{
+    lemma_expected_saves(ctx, k);
+    let pre = a64_prefix(ctx.len() as int);
+    let e = expected_saves(ctx, k);
+    let sv = pre + e;
+    assert(sv.len() == pre.len() + e.len());
+    assert forall|j: int| 0 <= j < sv.len() implies (#[trigger] sv[j] <= 17 || sv[j] == 29) by {
+        if j >= pre.len() { assert(sv[j] == e[j - pre.len()]); }
+    }
+    assert forall|j: int, l: int| 0 <= j < l < sv.len() implies sv[j] != sv[l] by {
+        if j >= pre.len() { assert(sv[j] == e[j - pre.len()]); assert(sv[l] == e[l - pre.len()]); }
+        else if l >= pre.len() { assert(sv[l] == e[l - pre.len()]); assert(4 <= sv[l] < 4 + 2 * k); }
+    }
+}
